@@ -9,7 +9,7 @@ from . import run as R
 
 IDENTS = ["Red", "GreenApple", "HTTPServer", "Utf8String", "X", "Abc_def", "A1b2", "XMLHttpRequest2", "Id", "IOError",
           "snake_name", "SCREAMING_ONE", "Blue2Go", "ÜberCool"[1:], "Yellow", "darkGray", "B", "Http2_Proxy", "V10",
-          "NoCase", "Purple_", "QRCode", "WiFi", "Z9"]
+          "NoCase", "Purple_", "QRCode", "WiFi", "Z9", "r#type", "r#Match", "r#loop_Forever"]
 IDENTS = [i for i in IDENTS if i.isascii()]
 STYLES = ["camelCase", "PascalCase", "kebab-case", "snake_case", "SCREAMING_SNAKE_CASE", "SCREAMING-KEBAB-CASE",
           "lowercase", "UPPERCASE", "title_case", "mixed_case", "Train-Case",
@@ -223,6 +223,9 @@ def fromstr_inputs(it: Item, info, rng, flipcap=32, nrandom=8):
             put(sp + " ", "near-pad")
             put(sp + "\n", "near-pad")
         ident = it.variants[vi].ident
+        if ident.startswith("r#"):
+            put(ident, "near-ident")        # the raw spelling of a raw identifier is NOT its name
+            ident = ident[2:]
         put(ident, "near-ident")
         for alt in (ident.lower(), ident.upper(), ident.replace("_", "-"), ident.replace("_", "")):
             put(alt, "near-ident")
